@@ -18,6 +18,7 @@ import (
 	"flag"
 	"fmt"
 	"math/rand"
+	"net"
 	"net/http"
 	"net/http/httptest"
 	"os"
@@ -103,7 +104,8 @@ func (r *lkRec) hook(op, class string, id uintptr, post bool) {
 		}
 	}
 	var gate chan struct{}
-	if r.gateOpen != nil && !post && op == "Lock" && class == r.gateClass && strings.HasPrefix(r.labels[g], r.gateWho) {
+	if r.gateOpen != nil && !post && op == "Lock" && class == r.gateClass &&
+		((r.gateWho != "" && strings.HasPrefix(r.labels[g], r.gateWho)) || (r.gateWho == "" && r.labels[g] == "")) {
 		gate = r.gateOpen
 		select {
 		case r.gateHit <- struct{}{}:
@@ -122,6 +124,85 @@ func (r *lkRec) hook(op, class string, id uintptr, post bool) {
 	if d > 0 {
 		time.Sleep(d)
 	}
+}
+
+// lkShutdown: Shutdown returns although a request that was accepted before it has not yet reached the rate limiter.
+// The request is held right before it locks the server mutex, Shutdown is started, then the request is let go.
+func lkShutdown(rec *lkRec, enc *json.Encoder) bool {
+	ln, err := net.Listen("tcp", "127.0.0.1:0")
+	if err != nil {
+		fatal(err)
+	}
+	addr := ln.Addr().String()
+	_ = ln.Close()
+	conf := DefaultCfg("mem").toConfig("")
+	conf.API.RateLimit = 1000
+	conf.HTTP.Addr = addr
+	srv := olareg.New(conf)
+	label := func(name string) {
+		g := goid()
+		rec.mu.Lock()
+		rec.labels[g] = name
+		rec.mu.Unlock()
+	}
+	runDone := make(chan error, 1)
+	go func() { label("run"); runDone <- srv.Run(context.Background()) }()
+	ok, note := true, ""
+	up := false
+	for i := 0; i < 100 && !up; i++ {
+		if c, err := net.DialTimeout("tcp", addr, 100*time.Millisecond); err == nil {
+			_ = c.Close()
+			up = true
+		} else {
+			time.Sleep(20 * time.Millisecond)
+		}
+	}
+	if !up {
+		_ = enc.Encode(map[string]any{"k": "shutdown", "ok": false, "built": false, "note": "the listener did not come up"})
+		return false
+	}
+	rec.mu.Lock()
+	rec.gateWho, rec.gateClass, rec.gateOpen, rec.gateHit = "", "Server.mu", make(chan struct{}), make(chan struct{}, 1)
+	rec.mu.Unlock()
+	clientDone := make(chan int, 1)
+	go func() {
+		label("client")
+		cl := &http.Client{Timeout: 10 * time.Second}
+		resp, err := cl.Get("http://" + addr + "/v2/")
+		if err != nil {
+			clientDone <- -1
+			return
+		}
+		_ = resp.Body.Close()
+		clientDone <- resp.StatusCode
+	}()
+	built := true
+	select {
+	case <-rec.gateHit:
+	case <-time.After(3 * time.Second):
+		built = false
+		note = "the request never reached the rate limiter"
+	}
+	shutDone := make(chan error, 1)
+	go func() { label("shutdown"); shutDone <- srv.Shutdown(context.Background()) }()
+	time.Sleep(150 * time.Millisecond) // Shutdown now waits for the accepted request
+	close(rec.gateOpen)
+	status := 0
+	select {
+	case status = <-clientDone:
+	case <-time.After(4 * time.Second):
+		ok, note = false, "the accepted request got no answer within 4s of being let go"
+	}
+	select {
+	case <-shutDone:
+	case <-time.After(4 * time.Second):
+		ok, note = false, "Shutdown did not return within 4s although the only request was let go"
+	}
+	rec.mu.Lock()
+	rec.gateOpen = nil
+	rec.mu.Unlock()
+	_ = enc.Encode(map[string]any{"k": "shutdown", "ok": ok, "built": built, "status": status, "note": note})
+	return ok
 }
 
 // lkCancel: a request that waits for a running collection returns when its context is cancelled (and everything else
@@ -426,6 +507,9 @@ func cmdLocks(args []string) {
 			if !lkCancel(rec, cat, st, enc) {
 				bad++
 			}
+		}
+		if !lkShutdown(rec, enc) {
+			bad++
 		}
 		fmt.Fprintf(os.Stderr, "vharness: cancel scenarios, %d failed\n", bad)
 		return
